@@ -1,33 +1,12 @@
 /-
 Runner objects of one worker (Model/C15_O1.lean): the invariant that rules out a double close, and
-its preservation by `accept`, `probe` and the *guarded* start completion (what fixes/F15a.patch does).
+its preservation by `accept`, `probe` and the start completion (guarded since /repo 18910db).
 -/
 import ArvVerif.Model.C15_O1
 namespace ArvVerif.C15
 open ArvVerif.C14
 
 def ids (l : List (Uuid × Nat)) : List Nat := l.map (·.2)
-
-/-- the guarded completion closure: only a runner that is still the one in `starting` is moved -/
-def RW.startDoneFixed (w : RW) (u : Uuid) : RW :=
-  match lookup w.pending u with
-  | none => w
-  | some r =>
-    let w1 := { w with pending := w.pending.filter (fun p => !(p.1 == u && p.2 == r)) }
-    if lookup w.starting u = some r then
-      { w1 with starting := erase w.starting u, running := insert w.running u r }
-    else w1
-
-def RW.stepFixed (w : RW) : RWOp → Option RW
-  | .accept u => some (w.accept u)
-  | .probe alive => w.probe alive
-  | .startDone u => some (w.startDoneFixed u)
-
-def RW.runFixed (w : RW) : List RWOp → Option RW
-  | [] => some w
-  | op :: rest => match w.stepFixed op with
-    | none => none
-    | some w1 => runFixed w1 rest
 
 /-- runner objects in the maps are pairwise distinct, none of them is closed, and `next` is fresh -/
 structure Good (w : RW) : Prop where
@@ -345,8 +324,8 @@ theorem good_accept (w : RW) (hg : Good w) (u : Uuid) : Good (w.accept u) := by
   · exact hg
   · exact good_congr (good_fresh_starting w hg u) rfl rfl rfl rfl
 
-theorem good_startDoneFixed (w : RW) (hg : Good w) (u : Uuid) : Good (w.startDoneFixed u) := by
-  unfold RW.startDoneFixed
+theorem good_startDone (w : RW) (hg : Good w) (u : Uuid) : Good (w.startDone u) := by
+  unfold RW.startDone
   cases hp : lookup w.pending u with
   | none => exact hg
   | some r =>
@@ -359,19 +338,19 @@ theorem good_startDoneFixed (w : RW) (hg : Good w) (u : Uuid) : Good (w.startDon
 theorem good_fresh : Good RW.fresh := by
   refine ⟨by simp [RW.fresh, ids], ?_, ?_, ?_⟩ <;> intro r hr <;> simp [RW.fresh, ids] at hr
 
-theorem runFixed_total : ∀ (ops : List RWOp) (w : RW), Good w → (w.runFixed ops).isSome = true := by
+theorem run_total : ∀ (ops : List RWOp) (w : RW), Good w → (w.run ops).isSome = true := by
   intro ops
   induction ops with
   | nil => intro w _; rfl
   | cons op rest ih =>
     intro w hg
-    unfold RW.runFixed
+    unfold RW.run
     cases op with
     | accept u => exact ih _ (good_accept w hg u)
-    | startDone u => exact ih _ (good_startDoneFixed w hg u)
+    | startDone u => exact ih _ (good_startDone w hg u)
     | probe alive =>
       obtain ⟨w', h, hg'⟩ := good_probe w hg alive
-      simp only [RW.stepFixed, h]
+      simp only [RW.step, h]
       exact ih _ hg'
 
 end ArvVerif.C15
